@@ -4,5 +4,7 @@ EXTENDS Shutdown, Json
 ConnOfDef == [k \in Calls |-> IF k = 3 THEN 2 ELSE 1]
 ItemsDef == [k \in Calls |-> IF k = 2 THEN 2 ELSE 0]
 ConnOfBig == [k \in Calls |-> IF k \in {1, 2} THEN 1 ELSE IF k = 3 THEN 2 ELSE 3]
+ConnOfHuge == [k \in Calls |-> IF k \in {1, 2} THEN 1 ELSE IF k \in {3, 4} THEN 2 ELSE 3]
+ItemsHuge == [k \in Calls |-> IF k = 2 THEN 2 ELSE IF k = 4 THEN 1 ELSE 0]
 ItemsBig == [k \in Calls |-> IF k = 2 THEN 2 ELSE IF k = 4 THEN 1 ELSE 0]
 =============================================================================
